@@ -30,6 +30,12 @@ CLAIMED.update({
          "Trusts: the per-thread stack model (A4); histories are total orders (no intra-operation preemption for this property).", "DESIGN.md 5 C06"),
 })
 
+CLAIMED.update({
+ "C03": ("span-sim", "deterministic simulation: seeded programs over the Span API executed as total orders on 1-3 threads with a seeded executor (poll / migrate / cancel / panic) for instrumented futures; the executor unrolls the protocol automaton (A3) into the exact expected collector call sequence",
+         "Seeded exploration of programs {new with any parent kind, clone, drop, entered/exit/guard drops in any order, nested in_scope/enter scopes incl. panics, record, follows_from, Span::current, or_current, default switched to another collector or none, instrumented tasks (Instrument, in_current_span, with_collector, tracing-futures) polled 0..n times on any thread and cancelled at any point}; the recording collectors' call log must equal the expected sequence call by call (creating collector, kind, span, thread), the automaton must be balanced at quiescence, disjoint id spaces expose calls routed to the wrong collector, disabled spans cause no calls. Sampling, not proof.",
+         "Trusts: the expected-sequence interpreter in sim/tsim/src/span_sim.rs; handles are used by one thread at a time (no intra-operation preemption for this property).", "DESIGN.md 5 C03"),
+})
+
 NOT_BUILT = {
 }
 
